@@ -353,8 +353,21 @@ def run_case(acc, c: dict, monitors: List[Callable], nontrivial: Optional[Callab
             fresh()
         return res
 
+    def _explore_restartable():
+        """A prefix that cannot be replayed even after repeating the execution (see explore._run_with_retry) was recorded by an
+        execution that the overloaded machine disturbed: the small case is explored once more from scratch (counted in the evidence);
+        a second divergence is a real harness error."""
+        try:
+            yield from explore(run_one, tie_budget, max_execs, early or 0)
+        except H.HarnessError as e0:
+            if "replay divergence" not in str(e0):
+                raise
+            acc.extra["cases_explored_again_after_divergence"] = acc.extra.get("cases_explored_again_after_divergence", 0) + 1
+            fresh()
+            yield from explore(run_one, tie_budget, max_execs, early or 0)
+
     try:
-        for prefix, res in explore(run_one, tie_budget, max_execs, early or 0):
+        for prefix, res in _explore_restartable():
             nexec += 1
             acc.evaluations += 1
             acc.add_hits(res.hook_hits)
@@ -391,6 +404,8 @@ def run_case(acc, c: dict, monitors: List[Callable], nontrivial: Optional[Callab
                             "trace": [e for e in res.trace][:40]})
             if stalled:
                 acc.stall(res)
+    except H.HarnessError as e_:
+        raise H.HarnessError(f"{e_} | case={c}") from e_
     finally:
         cfg.RUN_DEBUG_NODES = False
         cfg.TAWAZI_PROFILE_ALL_NODES = False
